@@ -146,23 +146,23 @@ fn call_grl_rules(t: &str) {
 }
 
 fn c05_bc_expression_parser_search() -> (bool, String) {
-    let (b, d) = search(5, plain, call_expression);
+    let (b, d) = search(crate::bound(5, 6), plain, call_expression);
     (b, format!("ExpressionParser::parse {}", d))
 }
 fn c05_bc_query_parser_search() -> (bool, String) {
-    let (b, d) = search(5, plain, call_query);
+    let (b, d) = search(crate::bound(5, 6), plain, call_query);
     (b, format!("QueryParser::parse(s) / parse(\"NOT \"+s) {}", d))
 }
 fn c05_grl_query_parser_goal_search() -> (bool, String) {
-    let (b, d) = search(3, as_goal, call_grl_query);
+    let (b, d) = search(crate::bound(3, 4), as_goal, call_grl_query);
     (b, format!("GRLQueryParser::parse / parse_queries, text as the goal: {}", d))
 }
 fn c05_grl_query_parser_name_when_action_search() -> (bool, String) {
-    let (b, d) = search(3, as_when_and_name, call_grl_query);
+    let (b, d) = search(crate::bound(3, 4), as_when_and_name, call_grl_query);
     (b, format!("GRLQueryParser::parse / parse_queries, text as name, when: and action value: {}", d))
 }
 fn c05_grl_rule_condition_search() -> (bool, String) {
-    let (b, d) = search(3, as_rule_condition, call_grl_rules);
+    let (b, d) = search(crate::bound(3, 4), as_rule_condition, call_grl_rules);
     (b, format!("GRLParser::parse_rules, text as the rule condition: {}", d))
 }
 
